@@ -356,6 +356,9 @@ pub fn run_c13(tier: &str, seed: u64, out: &mut Out) {
             // single tokens, where near misses live
             let tok = *r.pick(crate::gentext::NEAR_MISS);
             c13_text(out, tok.as_bytes(), ro);
+            // the same token quoted and inside a list: a token must read the same in every context
+            c13_text(out, format!("'{}", tok).as_bytes(), ro);
+            c13_text(out, format!("(z {})", tok).as_bytes(), ro);
             let tok = *r.pick(crate::gentext::NUM_TOKENS);
             c13_text(out, tok.as_bytes(), ro);
             let tok = *r.pick(crate::gentext::STR_TOKENS);
